@@ -2138,7 +2138,9 @@ def call_method(I: Any, recv: Term, name: str, args: List[Term], kwargs: Dict[st
         return I.external_call(target, args, kwargs, st, ctx, node, awaited)
     if recv[0] == "modvar":
         target = f"{recv[2]}.{name}"
-        return I.external_call(target, args, kwargs, st, ctx, node, awaited, c(None) if recv[2] == "logger" else None)
+        # (a method of a module-level object the analyser could not evaluate - other than a logger - is not the environment:
+        #  what it returns is an unknown of the analysis)
+        return I.external_call(target, args, kwargs, st, ctx, node, awaited, c(None) if recv[2] == "logger" else None, opaque=(recv[2] != "logger"))
     if recv[0] == "sym":
         typ = recv[2]
         base = recv[1]
@@ -2294,6 +2296,16 @@ def text_method(I: Any, s: Term, name: str, args: List[Term], kwargs: Dict[str, 
                 except Exception:  # noqa: BLE001
                     st.may_raise("UnicodeDecodeError", c(True), where)
                     return top("never: undecodable literal")
+            if (not args and not kwargs and len(s[2]) == 1 and s[2][0][0] == "txt" and isinstance(s[2][0][1], tuple) and len(s[2][0][1]) == 4 and s[2][0][1][0] == "app"
+                    and s[2][0][1][1] in ("rstrip", "strip", "lstrip") and is_c(s[2][0][1][3]) and isinstance(s[2][0][1][3][1], bytes) and s[2][0][1][3][1]
+                    and all(b_ < 0x80 for b_ in s[2][0][1][3][1])):
+                # B.rstrip(ascii).decode() is B.decode().rstrip(ascii): in UTF-8 a byte below 0x80 is a character of its own and never
+                # part of another one, so the same characters go and the rest decodes (or fails to) the same way
+                inner_ = text_method(I, s[2][0][1][2], "decode", [], {}, st, ctx, node)
+                if inner_ is not None and not is_top(inner_):
+                    r2_ = text_method(I, inner_, s[2][0][1][1], [c(s[2][0][1][3][1].decode("ascii"))], {}, st, ctx, node)
+                    if r2_ is not None:
+                        return r2_
             st.may_raise("UnicodeDecodeError", ("invalid", "utf-8", s), where)
             return ("seq", "s", (("txt", ("decode", s[2])),))
         return top("decode of str")
